@@ -110,7 +110,7 @@ def check(case, ctx):
     plist = []
     for tags, prm in prms:
         for t, d in zip(tags, sd['degrees']):
-            ctx.tag('u:' + ('knot_full' if t == 'knot_m%d' % d else 'knot_ulp' if t == 'knot_ulp' else 'knot' if t.startswith('knot') else t))
+            ctx.tag('u:' + ('knot_full' if t == 'knot_m%d' % d else t if t in ('knot_ulp', 'knot_near') else 'knot' if t.startswith('knot') else t))
         exact = S.point(prm)
         got = G.evaluate_single(o, prm)
         ctx.near(got, exact, tol, 'point/evaluate_single', 'evaluate_single%r differs from the definition' % (prm,),
